@@ -55,7 +55,7 @@ func (c *ExecuteCtx) GetChunkFieldResult(name string, key []byte) ([]any, bool) 
 	if !c.EnableCache {
 		return nil, false
 	}
-	ckey := fmt.Sprintf("%s-%s", name, string(key))
+	ckey := fmt.Sprintf("%d:%s-%s", len(name), name, string(key))
 	if chunk, have := c.FieldChunkKeyCaches[ckey]; have {
 		return chunk, true
 	}
@@ -81,7 +81,7 @@ func (c *ExecuteCtx) SetChunkFieldResult(name string, key []byte, chunk []any) {
 	if !c.EnableCache {
 		return
 	}
-	ckey := fmt.Sprintf("%s-%s", name, string(key))
+	ckey := fmt.Sprintf("%d:%s-%s", len(name), name, string(key))
 	if _, have := c.FieldChunkKeyCaches[ckey]; have {
 		return
 	}
